@@ -450,7 +450,8 @@ def r4(k: Kit) -> None:
         val = {'self._auth_complete': s['complete'],
                'self._auth_final': s['final'],
                'self._username': 'alice' if s['same_user'] else 'bob',
-               'self._auth': Obj('AUTH') if s['auth'] else None}
+               'self._auth': Obj('AUTH') if s['auth'] else None,
+               'self._userauth_task': None}
         try:
             o = evaluate(idx, fi.module, fi.node.body, val,
                          {'packet': Obj('packet')}, on_call)
@@ -484,7 +485,8 @@ def r4(k: Kit) -> None:
         row('fresh request starts one attempt', pre_ok and
             s['role'] == 'server' and not s['complete'],
             len(tasks) == 1 and len(fin) == 1 and
-            fin[0][:1] == ((not s['same_user']),),
+            [a for a in fin[0] if isinstance(a, bool)][:1] ==
+            [not s['same_user']],
             'not exactly one attempt with begin_auth == (user changed)')
         names = [nm for nm, a in o.calls]
         row('auth in progress abandoned before the new attempt', pre_ok and
@@ -1291,6 +1293,78 @@ def r14(k: Kit) -> None:
                   g.describe_path(bad[1]) if bad else None)
 
 
+def r16(k: Kit) -> None:
+    """Requests are set up one after the other."""
+    rep = k.rep
+    rep.rule('C05.R16', 'every USERAUTH_REQUEST is finished by a task that '
+             'first waits for the task of the request before it: '
+             '_process_userauth_request keeps the task it creates in a field '
+             'and hands the previous value to the new coroutine, and '
+             '_finish_userauth awaits that argument before it calls '
+             'begin_auth or lookup_server_auth.  Otherwise a request for the '
+             'same new user that follows a user switch at once (begin_auth '
+             '= False) is checked against the per-user state of the '
+             'previous user - its authorized keys are still installed while '
+             'reload_config() for the new user is in the executor')
+    fp = k.func(CONN + '_process_userauth_request')
+    fu = k.func(CONN + '_finish_userauth')
+    gp = k.cfg(fp)
+    fields = []
+    for n, v in [(n, v) for f in ('self._' + x for x in (
+            'auth_task', 'userauth_task', 'auth_setup_task', 'finish_task',
+            'auth_request_task')) for n, v in k.stores_to(fp, f)]:
+        pass
+    # any field assigned from self.create_task(self._finish_userauth(...))
+    prev_param = None
+    okp = False
+    for x in ast.walk(fp.node):
+        if isinstance(x, ast.Assign) and len(x.targets) == 1 and \
+                isinstance(x.value, ast.Call) and \
+                is_call(x.value, 'create_task', 'self') and x.value.args and \
+                isinstance(x.value.args[0], ast.Call) and \
+                is_call(x.value.args[0], '_finish_userauth', 'self'):
+            fld = dotted(x.targets[0])
+            inner = x.value.args[0]
+            if fld and fld.startswith('self.'):
+                for i, a in enumerate(inner.args):
+                    if dotted(a) == fld and i < len(fu.params) - 1:
+                        prev_param = fu.params[i + 1]   # skip self
+                        okp = True
+    rep.check(okp, 'C05.R16', key(fp, 'task chained to its predecessor'),
+              'the previous request\'s task is passed to the new one',
+              'the task finishing a USERAUTH_REQUEST is created without any '
+              'link to the task of the request before it: '
+              'USERAUTH_REQUEST(alice, none), then USERAUTH_REQUEST(bob, '
+              'none) immediately followed by USERAUTH_REQUEST(bob, '
+              'publickey signed with alice\'s key) is validated against '
+              'alice\'s authorized keys and succeeds as bob',
+              fp.loc(fp.node))
+    if not okp:
+        return
+    g = k.cfg(fu)
+    waits = [n.id for n in g.nodes if n.ast is not None and any(
+        isinstance(x, ast.Await) and prev_param in names_read(x)
+        for r_ in g.node_roots(n) for x in walk_shallow(r_))]
+    sinks = [n for n, c in k.call_nodes(fu, lambda c: is_call(
+        c, 'begin_auth') or is_call(c, 'lookup_server_auth') or
+        is_call(c, 'reload_config'))]
+
+    def noprev(x: Node) -> Optional[bool]:
+        if x.kind == 'atom' and x.ast is not None and \
+                dotted(x.ast) == prev_param:
+            return False
+        return None
+    for sk in sinks:
+        w = g.guarded_by(sk.id, noprev, extra_blocked=waits)
+        rep.check(bool(waits) and w is None, 'C05.R16',
+                  key(fu, f'{norm(sk.ast)[:36]} after the previous request'),
+                  f'`await` on `{prev_param}` precedes it whenever there is '
+                  'a previous task',
+                  'the request is evaluated without waiting for the set-up '
+                  'of the request before it', k.loc(fu, sk),
+                  g.describe_path(w) if w else None)
+
+
 def run(idx, rep, tier):
     k = Kit(idx, rep)
     rep.assumptions += NOT_DECIDED
@@ -1308,6 +1382,7 @@ def run(idx, rep, tier):
     r12(k)
     r13(k)
     r14(k)
+    r16(k)
     # C05.R15: shared rule
     from .c06 import r1 as _c06r1
     rep.rule('C05.R15', 'receive gate (= rows of C06.R1): connection-protocol messages (80+) are rejected until authentication is complete, whatever the other auth flags say - a client that never requests ssh-userauth gets no channel, request or forward served')
